@@ -8,5 +8,6 @@ import Refine.Model.Geom
 import Refine.Model.NodeIds
 import Refine.Model.CellStore
 import Refine.Lemmas.ScalarReal
+import Refine.Lemmas.NodeIds
 import Refine.Props.C15
 import Refine.Props.C14NodeCell
